@@ -5,9 +5,19 @@ POOL_SUITE = {"suite": "pool", "trace": "Trace_Pool", "cfg": "Trace_Pool.cfg",
 MC_POOL = {"module": "MC_Pool", "quick": "MC_Pool_quick.cfg", "thorough": "MC_Pool.cfg", "workers": 6,
            "timeout": {"quick": 600, "thorough": 3000}}
 
+MATH_CP = {"suite": "math", "trace": "Trace_Math", "cfg": "Trace_Math.cfg", "extra": {"kind": "cp"},
+           "quick": {"runs": 40, "ops": 1000}, "thorough": {"runs": 800, "ops": 1000}, "procs": 8}
+MATH_SPREAD = {"suite": "math", "trace": "Trace_Math", "cfg": "Trace_Math.cfg", "extra": {"kind": "spread"},
+               "quick": {"runs": 30, "ops": 1000}, "thorough": {"runs": 400, "ops": 1000}, "procs": 6}
+MC_CPMATH = {"module": "MC_CpMath", "quick": "MC_CpMath_quick.cfg", "thorough": "MC_CpMath.cfg", "workers": 10,
+             "timeout": {"quick": 600, "thorough": 3000}}
+MC_CPMATH10 = {"module": "MC_CpMath", "quick": "MC_CpMath_dec10.cfg", "thorough": "MC_CpMath_dec10.cfg", "workers": 4,
+               "timeout": {"quick": 600, "thorough": 3000}}
+
 PROPS = {
     "C01": {"mc": [MC_POOL], "suites": [POOL_SUITE]},
+    "C02": {"mc": [MC_CPMATH], "suites": [MATH_CP, POOL_SUITE]},
     "C07": {"mc": [MC_POOL], "suites": [POOL_SUITE]},
     "C14": {"mc": [MC_POOL], "suites": [POOL_SUITE]},
-    "C15": {"mc": [MC_POOL], "suites": [POOL_SUITE]},
+    "C15": {"mc": [MC_POOL], "suites": [POOL_SUITE, MATH_SPREAD]},
 }
